@@ -39,6 +39,9 @@ def run(ctx):
     django_h.setup()
     n = SC.generic_layer(ctx, BK, "full", 0) + SC.generic_layer(ctx, BK, "full", 1) + SC.generic_layer(ctx, BK, "full", 2)
     ctx.layer("full-alphabet", k_max=2, filters=n, exhaustive=True)
+    nd = SC.deep_layer(ctx, BK, (4, 6) if ctx.quick else (4, 6, 8))
+    ctx.layer("pumped-towers", filters=nd, depths=[4, 6] if ctx.quick else [4, 6, 8], exhaustive=True,
+              note="every self-composable constructor and every ordered pair of them, stacked on the left and right spine; long in-lists and and/or chains")
     nr = SC.reverse_pass(ctx, BK)
     ctx.layer("reverse-order-pass", k=1, filters=nr, exhaustive=True, note="same filters, opposite translation history per worker")
     ns = SC.generic_strings(ctx, BK, 2)
